@@ -513,7 +513,7 @@ out:
     pixman_region32_fini (&region);
 }
 
-static void
+static pixman_bool_t
 add_glyphs (pixman_glyph_cache_t *cache,
 	    pixman_image_t *dest,
 	    int off_x, int off_y,
@@ -529,6 +529,7 @@ add_glyphs (pixman_glyph_cache_t *cache,
     pixman_composite_info_t info;
     pixman_image_t *white_img = NULL;
     pixman_bool_t white_src = FALSE;
+    pixman_bool_t ret = TRUE;
     int i;
 
     _pixman_image_validate (dest);
@@ -578,7 +579,10 @@ add_glyphs (pixman_glyph_cache_t *cache,
 		    static const pixman_color_t white = { 0xffff, 0xffff, 0xffff, 0xffff };
 
 		    if (!(white_img = pixman_image_create_solid_fill (&white)))
+		    {
+			ret = FALSE;
 			goto out;
+		    }
 
 		    _pixman_image_validate (white_img);
 		}
@@ -630,6 +634,8 @@ add_glyphs (pixman_glyph_cache_t *cache,
 out:
     if (white_img)
 	pixman_image_unref (white_img);
+
+    return ret;
 }
 
 /* Conceptually, for each glyph, (white IN glyph) is PIXMAN_OP_ADDed to an
@@ -679,13 +685,17 @@ pixman_composite_glyphs (pixman_op_t            op,
 	pixman_image_set_component_alpha (mask, TRUE);
     }
 
-    add_glyphs (cache, mask, - mask_x, - mask_y, n_glyphs, glyphs);
-
-    pixman_image_composite32 (op, src, mask, dest,
-			      src_x, src_y,
-			      0, 0,
-			      dest_x, dest_y,
-			      width, height);
+    /* If the mask could not be built, skip the drawing rather than
+     * composite with a partial (or blank) mask.
+     */
+    if (add_glyphs (cache, mask, - mask_x, - mask_y, n_glyphs, glyphs))
+    {
+	pixman_image_composite32 (op, src, mask, dest,
+				  src_x, src_y,
+				  0, 0,
+				  dest_x, dest_y,
+				  width, height);
+    }
 
     pixman_image_unref (mask);
 }
